@@ -1,5 +1,7 @@
 // C03: linear interpolation is the N-linear interpolant over the INPUT dimensions.
 // One shard = one (N, coordinate type); M, storage type and the layer below vary inside.
+#include <memory>
+#include <sstream>
 #include <cmath>
 #include <cstdint>
 #include <limits>
@@ -139,7 +141,17 @@ struct Lin {
                     if (k == N) break;
                 }
             }
-            typename field_t::view_t view(f);
+            // every fourth field is interpolated after a trip through its own dump: the oracle keeps reading the
+            // lattice values of the ORIGINAL (stored values and every configuration survive the trip exactly)
+            std::unique_ptr<field_t> reloaded;
+            if (fi % 4 == 2) {
+                vh::set_case("%s field#%u extents=%s dump/reload", nm.c_str(), fi, vh::jarr(ext, N).c_str());
+                std::stringstream ss(std::ios::in | std::ios::out | std::ios::binary);
+                f.dump(ss);
+                reloaded = std::make_unique<field_t>(static_cast<std::istream &>(ss));
+                vh::stat("fields_interpolated_after_dump_and_reload");
+            }
+            typename field_t::view_t view(reloaded ? *reloaded : f);
             for (unsigned q = 0; q < ncoords; ++q) {
                 R x[N];
                 typename field_t::coordinate_t c;
